@@ -5,6 +5,7 @@ use crate::runner::PropDef;
 pub mod common;
 pub mod inputs;
 pub mod giant;
+pub mod huge;
 pub mod c01;
 pub mod c02;
 pub mod c03;
